@@ -23,6 +23,11 @@ type TagDeep struct {
 	DC string `sod:"lower"`
 }
 
+// a named string type: it cannot be indexed or searched (sod knows the exact type "string" only) but it
+// can carry a case constraint, and a stored value must then be canonical like any other (finding D16b:
+// the transform panicked on it)
+type TagSev string
+
 type TagProbe struct {
 	sod.Item
 	A  string `sod:"upper,unique"`
@@ -42,6 +47,8 @@ type TagProbe struct {
 	O  string `sod:"index"`
 	P  string
 	Q  int    `sod:"unique"`
+	R  TagSev `sod:"lower"`
+	S  TagSev `sod:"upper"`
 	In TagDeep
 	Pt *TagDeep
 }
@@ -116,11 +123,19 @@ func runTags(w *bufio.Writer) {
 	}
 	mk := func(s string, q int) *TagProbe {
 		return &TagProbe{A: s + "a", B: s + "b", C: s + "C", D: s + "D", E: s + "E", F: s + "F", G: s + "g", H: s + "h", I: s + "i", J: s + "j",
-			K: s + "K", L: s + "l", M: s + "M", N: s + "n", O: s + "o", P: s + "p", Q: q,
+			K: s + "K", L: s + "l", M: s + "M", N: s + "n", O: s + "o", P: s + "p", Q: q, R: TagSev(s + "R"), S: TagSev(s + "s"),
 			In: TagDeep{DA: s + "da", DB: s + "DB", DC: s + "DC"}, Pt: &TagDeep{DA: s + "pa", DB: s + "PB", DC: s + "PC"}}
 	}
 	o1 := mk("Mixed", 1)
-	if err := db.InsertOrUpdate(o1); err != nil {
+	insert := func(o *TagProbe) (err error) {
+		defer func() {
+			if r := recover(); r != nil {
+				err = fmt.Errorf("PANIC: %v", r)
+			}
+		}()
+		return db.InsertOrUpdate(o)
+	}
+	if err := insert(o1); err != nil {
 		fmt.Fprintf(w, "! C16 insert: %v\n", err)
 		return
 	}
@@ -158,7 +173,7 @@ func runTags(w *bufio.Writer) {
 				fmt.Fprintf(w, "! C16 field %s (`%s`) stored as %q: not lower case\n", path, tags[path], s)
 			}
 			// case-insensitive search on constrained fields, indexed or not
-			if c.Upper || c.Lower {
+			if (c.Upper || c.Lower) && fv.Type() == reflect.TypeOf("") {
 				for _, probe := range []string{strings.ToUpper(s), strings.ToLower(s)} {
 					sr := db.Search(&TagProbe{}, path, "=", probe)
 					if sr.Err() != nil || sr.Len() != 1 {
